@@ -767,8 +767,9 @@ def run_case(ctx, case):
                             ctx.violation('%s|failure|returned' % name, '%s returned %r for a response with status %s reason %s'
                                           % (name, result, it['status'], it['reason']), detail)
                         elif isinstance(raised, core_exc.OperationFailure):
-                            got = (raised.status.value, raised.reason.value, str(raised))
-                            want = (it['status'], it['reason'], it['message'] or '')
+                            # (the message as the exception carries it: None when the response has no Result Message)
+                            got = (raised.status.value, raised.reason.value, raised.args[0] if raised.args else None)
+                            want = (it['status'], it['reason'], it['message'])
                             if got != want:
                                 ctx.violation('%s|failure|fields' % name, 'operation failure carries %r, the response says %r'
                                               % (got, want), detail)
